@@ -10,14 +10,14 @@ MANIFEST = dict(
 
 INVS = ["WrSync", "StaleLoaded", "FreshAgree", "OneIdentity"]
 PROPS = ["ReadReflectsDb", "ExpireMakesFresh", "PendingKept"]
-FOOTPRINT = ["ExtSet", "ExtDel", "Expire", "ExpireAll", "ExpireV", "Refresh", "Commit", "QueryAll", "Read", "SetV", "Flush", "Rollback", "Add"]
+FOOTPRINT = ["ExtSet", "ExtDel", "Expire", "ExpireAll", "ExpireV", "RefreshV", "Refresh", "Commit", "QueryAll", "Read", "SetV", "Flush", "Rollback", "Add"]
 
 
 def spec(chk):
     q = chk.quick
     return dict(
         cfgs=[dict(name="ext", acts=["SetV", "Expire", "ExpireV", "Refresh", "Read", "Query", "Ext"], depth=6, edge_sample=0.12 if q else 0.6,
-                   edge_probs={"Read": 0.6, "QueryAll": 0.6, "Refresh": 0.3} if q else {},
+                   edge_probs={"Read": 0.6, "QueryAll": 0.6, "Refresh": 0.3, "ExpireV": 0.6, "RefreshV": 0.6} if q else {},
                    deep_depth=7 if q else 8, eoc=True, legacy=True, random=200 if q else 2000)],
         invs=INVS, props=PROPS, footprint=FOOTPRINT,
         nontrivial=lambda frm, act: act["a"] in ("Read", "Refresh", "QueryAll") or (act["a"] in ("ExtSet", "ExtDel") and any(x != "none" for x in frm["imap"])))
